@@ -159,6 +159,29 @@ impl Report {
         }
     }
 
+    /// Merges another report (of a worker thread) into this one.
+    pub fn absorb(&mut self, other: Report) {
+        for (pid, o) in other.props {
+            let p = self.props.entry(pid).or_default();
+            p.evaluations += o.evaluations;
+            p.traces += o.traces;
+            p.nontrivial.extend(o.nontrivial);
+            for s in o.samples { if p.samples.len() < 3 { p.samples.push(s) } }
+            for v in o.violations {
+                let sig = v["sig"].as_str().unwrap_or("").to_string();
+                let first = p.violation_sigs.insert(sig);
+                if first || p.violations.len() < 10 { p.violations.push(v) }
+            }
+            for d in o.divergences { if p.divergences.len() < 20 { p.divergences.push(d) } }
+            for (k, v) in o.notes {
+                match (p.notes.get(&k).and_then(|x| x.as_u64()), v.as_u64()) {
+                    (Some(a), Some(b)) => { p.notes.insert(k, json!(a + b)); }
+                    _ => { p.notes.insert(k, v); }
+                }
+            }
+        }
+    }
+
     pub fn violations(&self, pid: &str) -> usize {
         self.props.get(pid).map(|p| p.violations.len()).unwrap_or(0)
     }
